@@ -740,6 +740,30 @@ func (fr *Frame) prepareSpec(si *specInfo) {
 	si.busy = true
 	sf := si.sf
 	eng := fr.eng
+	if sf.Kind == "abstract" && len(sf.Reads) > 0 {
+		deps := map[string]bool{}
+		sc := eng.scratchFrame()
+		c := &evalCtx{fr: sc, st: sc.st, old: sc.st, names: map[string]*Val{}, callee: "spec:" + sf.Name}
+		for i, p := range sf.Params {
+			c.names[p.Name] = &Val{t: p.Name + "!p", sort: si.psorts[i], typ: si.ptypes[i]}
+		}
+		for _, r := range sf.Reads {
+			sc.withState(sc.st, func() { sc.eval1(r, c) })
+		}
+		for h := range sc.vc.declared {
+			if strings.HasSuffix(h, "@0") {
+				if hn := sc.vc.heapNameOfInit(h); hn != "" {
+					deps[hn] = true
+					eng.heapSorts[hn] = sc.vc.heapSort[hn]
+				}
+			}
+		}
+		si.deps = sortedKeys(deps)
+		for k := range sc.vc.specUsed {
+			fr.vc.specUsed[k] = true
+			eng.specCallees[sf.Name] = append(eng.specCallees[sf.Name], k)
+		}
+	}
 	if sf.Kind != "abstract" {
 		// pass 1: discover heap dependencies with a recording scratch frame
 		deps := map[string]bool{}
